@@ -217,6 +217,12 @@ PROPS = {
             dict(name="VerifBookletAccepted", pkg=API, bounds=dict(quick=dict(M=40), thorough=dict(M=200)), opts=dict(unwind=500)),
         ],
     ),
+    "C39": dict(
+        pkg=MO,
+        explanation="Node.Add / HandleLeaf / insertIntoLeaf / updateNameTreeLimits / Node.Remove / removeFromLeaf / removeFromKids / Node.Value executed symbolically on histories of I inserts then R removals with symbolic 1-byte keys on an empty tree (maxEntries = 3: the 4th distinct key splits the leaf); the solver enumerates every feasible ordering/equality pattern of the keys; after each operation: keys strictly ascending, node limits = min/max below, lookups = reference association list",
+        outside="histories longer than the bounds, keys longer than one byte (ordering is lexicographic: one byte exercises every comparison outcome), trees read from documents, NameMap renaming of duplicate keys, writing and re-reading the tree",
+        harnesses=[dict(name="VerifNameTreeHistory", bounds=dict(quick=dict(I=5, R=1), thorough=dict(I=6, R=2)), opts=dict(unwind=200))],
+    ),
     "C42": dict(
         pkg=SM,
         level="model_checking",
